@@ -4,8 +4,10 @@ package main
 
 import (
 	"fmt"
+	"go/constant"
 	"go/token"
 	"go/types"
+	"sort"
 	"strings"
 
 	"golang.org/x/tools/go/ssa"
@@ -726,43 +728,81 @@ func checkDocumentOnly(c *Ctx, rule string) {
 			continue
 		}
 		bad = ""
-		got := map[int64]bool{}
-		disj := False
+		// the option word the condition tests: the non-constant operand of the mask tests
+		var word *E
+		nWords := 0
+		isOptAtom := func(at *E) bool {
+			if at.Op != "eq" || at.Args[0].Op != "bin" || at.Args[0].Aux != "&" {
+				return false
+			}
+			_, okc := at.Args[1].IntVal()
+			return okc
+		}
 		for _, at := range u.AtomsOf(ef.Cond) {
-			if at.Op == "eq" && at.Args[0].Op == "bin" && at.Args[0].Aux == "&" {
-				if b, ok := at.Args[1].IntVal(); ok {
-					if m, ok2 := at.Args[0].Args[0].IntVal(); (ok2 && m == b) || func() bool { m2, ok3 := at.Args[0].Args[1].IntVal(); return ok3 && m2 == b }() {
-						got[b] = true
-						disj = u.bdd.Or(disj, u.Atom(at))
+			if !isOptAtom(at) {
+				continue
+			}
+			for _, x := range at.Args[0].Args {
+				if _, isC := x.IntVal(); !isC && x != word {
+					word = x
+					nWords++
+				}
+			}
+		}
+		if word == nil || nWords != 1 {
+			bad = "UNDECIDED: the condition of the restriction does not test one option word against constant masks"
+			break
+		}
+		// everything else (the option loop has ended without an error, ...) is quantified away
+		rest := ef.Cond
+		for _, at := range u.AtomsOf(ef.Cond) {
+			if !isOptAtom(at) {
+				rest = u.bdd.Exists(rest, u.atomIx[at.key])
+			}
+		}
+		var wantMask int64
+		for b := range want {
+			wantMask |= b
+		}
+		// decided on: no option, every single option bit, every pair
+		var bits []int64
+		if sp := c.P.SPkg[pkgPath("rules")]; sp != nil {
+			for _, m := range sp.Members {
+				if nc, ok := m.(*ssa.NamedConst); ok && typeStr(nc.Type()) == "rules.NetworkRuleOption" {
+					if v, ok := constant.Int64Val(nc.Value.Value); ok && v != 0 && v&(v-1) == 0 {
+						bits = append(bits, v)
 					}
 				}
 			}
 		}
-		for b, n := range want {
-			if !got[b] {
-				bad = "a rule with $" + strings.ToLower(strings.TrimPrefix(n, "Option")) + " is not restricted to document requests: it also matches the page's sub-requests and is selected as their basic rule"
+		sort.Slice(bits, func(i, j int) bool { return bits[i] < bits[j] })
+		vals := []int64{0}
+		vals = append(vals, bits...)
+		for i, b1 := range bits {
+			for _, b2 := range bits[i+1:] {
+				vals = append(vals, b1|b2)
 			}
 		}
-		for b := range got {
-			if _, ok := want[b]; !ok && bad == "" {
-				bad = fmt.Sprintf("option bit %#x restricts the rule to document requests although it is not a document-level modifier", b)
+		for _, v := range vals {
+			r := u.SubstBool(rest, map[string]*E{word.key: u.ConstVal(constantInt(v), word.Typ)})
+			c.Paths++
+			if r != True && r != False {
+				bad = fmt.Sprintf("UNDECIDED: the condition does not fold for options %#x: %s", v, clip(u.ShowBool(r), 100))
+				break
 			}
-		}
-		if bad == "" {
-			// the restriction is applied whenever one of the options is set (other atoms: the loop over the
-			// option list has ended without an error)
-			rest := ef.Cond
-			for _, at := range u.AtomsOf(ef.Cond) {
-				isOpt := false
-				if at.Op == "eq" && at.Args[0].Op == "bin" && at.Args[0].Aux == "&" {
-					isOpt = true
+			if (r == True) != (v&wantMask != 0) {
+				if r == False {
+					nm := ""
+					for b, n := range want {
+						if v&b != 0 {
+							nm = strings.ToLower(strings.TrimPrefix(n, "Option"))
+						}
+					}
+					bad = "a rule with $" + nm + " is not restricted to document requests: it also matches the page's sub-requests and is selected as their basic rule"
+				} else {
+					bad = fmt.Sprintf("option set %#x restricts the rule to document requests although it holds no document-level modifier", v)
 				}
-				if !isOpt {
-					rest = u.bdd.Exists(rest, u.atomIx[at.key])
-				}
-			}
-			if rest != disj {
-				bad = "the restriction to document requests is not applied exactly when one of the document-level modifiers is enabled"
+				break
 			}
 		}
 	}
